@@ -58,6 +58,27 @@ def vacating_fns(ctx, R):
     return [b for b, site in c02.future_drain_callers(ctx, R, RE_FUTURE_POLL) if R.calls_to_body(b, R.remove_fn)]
 
 
+def drain_sites_in(ctx, R, b, vac):
+    """Drain call sites of a join-style poll: calls of a vacating drain (vac), or direct calls of DRAIN with
+    poll_fn = Future::poll (then the caller vacates itself, conditionally).  -> [(bb, term, "vacating"|"direct")]"""
+    fl = ctx.flow(b)
+    out = []
+    dr = {d.path for d in R.drain_fns}
+    for bb, t, fn in b.calls():
+        if fn is None or b.is_cleanup(bb):
+            continue
+        nm = fn_name(fn)
+        if nm in vac:
+            out.append((bb, t, "vacating"))
+        elif nm in dr:
+            pf = strip_refs(fl.operand_expr(t["args"][-1]))
+            while pf[0] == "cast":
+                pf = pf[2]
+            if pf[0] == "fn" and re.search(RE_FUTURE_POLL, pf[1] or ""):
+                out.append((bb, t, "direct"))
+    return out
+
+
 def poll_fns_of(ctx, struct_path):
     mod_ty = struct_path
     return [b for b in ctx.facts.fn_bodies()
@@ -124,20 +145,22 @@ def invalidating_sites(ctx, b, fieldnames, depth=2):
     return out
 
 
-def r7_1(ctx, R, mus):
+def r7_1(ctx, R, mus, placement_only=False):
     ctx.rule("R7.1", "vacate => write (or invalidate): after every Ready(Some((i,_))) of the vacating drain, before the "
                      "next drain or return: MaybeUninit::write(field[i], payload of the same result) or the field is "
                      "replaced (and the collected elements released) on that path")
     vac = {v.path for v in vacating_fns(ctx, R)}
+    if placement_only:
+        vac |= {d.path for d in R.drain_fns}
     ctx.floor("R7.1", "vacating-drain-fns", len(vac), 1)
     n = 0
     for sp, fields in mus.items():
         for b in poll_fns_of(ctx, sp):
             fl = ctx.flow(b)
             vf = variant_facts(b, fl)
-            drains = [(bb, t, fn) for bb, t, fn in b.calls() if fn and fn_name(fn) in vac and not b.is_cleanup(bb)]
+            drains = drain_sites_in(ctx, R, b, vac)
             inval = invalidating_sites(ctx, b, fields)
-            for dbb, dt, dfn in drains:
+            for dbb, dt, dkind in drains:
                 n += 1
                 dest = place_str(dt["dest"])
                 region = blocks_with(vf, [(dest, "Ready"), ("(%s as Ready).0" % dest, "Some")])
@@ -156,8 +179,25 @@ def r7_1(ctx, R, mus):
                            "index=%s value=%s target=%s" % (expr_str(idx) if idx else None, expr_str(val), expr_str(tgt)))
                     if i_ok and v_ok and f_ok:
                         good.append(wbb)
+                if placement_only:
+                    continue
                 good_inval = [x[0] for x in inval if x[2]]
                 stops = b.returns() + [dbb]
+                if dkind == "direct":
+                    # the poll function vacates slots itself: the obligation attaches to every REMOVE(i) of the drained index
+                    rems = []
+                    for rbb, rt, rfn in R.calls_to_body(b, R.remove_fn):
+                        idx = fl.operand_expr(rt["args"][-1])
+                        if idx[0] == "proj" and idx[1][0] == "call" and idx[1][3] == dbb and idx[2] == ("@Ready", ".0", "@Some", ".0", ".0"):
+                            rems.append(rbb)
+                    okd = True
+                    for rbb in rems:
+                        before = any(b.dominates(g, rbb) and g in region for g in good + good_inval)
+                        after = all(must_pass_flags(b, fl, s_, stops, good + good_inval) for s_ in b.normal_succ(rbb))
+                        okd = okd and (before or after)
+                    ctx.ob("R7.1", b, "vacated-slot-written-or-buffer-invalidated@%s" % _site_label(b, dbb), okd, b.loc(dbb),
+                           "direct drain: %d REMOVE(i) sites, each paired with a write of output[i] or an invalidation; slots left occupied keep I7" % len(rems))
+                    continue
                 ok = bool(ents) and all(must_pass_flags(b, fl, e, stops, good + good_inval) for e in ents)
                 ctx.ob("R7.1", b, "vacated-slot-written-or-buffer-invalidated@%s" % _site_label(b, dbb), ok, b.loc(dbb),
                        "entries %s; write sites %s; invalidation sites %s" % (
@@ -194,7 +234,7 @@ def r7_2(ctx, R, mus):
                         conv.append((bb, fl.call_expr(t, bb), "transmute"))
             for bb, e, kind in conv:
                 n += 1
-                drains = [(dbb, dt) for dbb, dt, dfn in b.calls() if dfn and fn_name(dfn) in vac and not b.is_cleanup(dbb)]
+                drains = [(dbb, dt) for dbb, dt, dk in drain_sites_in(ctx, R, b, vac)]
                 under_none = False
                 for dbb, dt in drains:
                     dest = place_str(dt["dest"])
@@ -227,7 +267,10 @@ def r7_3(ctx, R, mus):
                 n += 1
                 names = e[3]
                 ops = dict(zip(names, e[2]))
-                qs = [v for k, v in ops.items() if k not in fields]
+                adt = ctx.facts.adts[sp]
+                qnames = [f["name"] for f in adt["variants"][0]["fields"]
+                          if re.match(r"(futures_unordered_bounded::FuturesUnorderedBounded|futures_ordered_bounded::FuturesOrderedBounded)<", f["ty"])]
+                qs = [v for k, v in ops.items() if k in qnames]
                 bufs = [v for k, v in ops.items() if k in fields]
                 ok = False
                 det = ""
@@ -271,7 +314,7 @@ def r7_5(ctx, R, mus):
         for b in poll_fns_of(ctx, sp):
             fl = ctx.flow(b)
             vf = variant_facts(b, fl)
-            drains = [(dbb, dt) for dbb, dt, dfn in b.calls() if dfn and fn_name(dfn) in vac and not b.is_cleanup(dbb)]
+            drains = [(dbb, dt) for dbb, dt, dk in drain_sites_in(ctx, R, b, vac)]
             for bb, e in returned_exprs(ctx, b):
                 if not (e[0] == "agg" and e[1].endswith("Poll::Ready")):
                     continue
@@ -285,7 +328,7 @@ def r7_5(ctx, R, mus):
                 err_ok = False
                 if is_err:
                     p = v[2][0]
-                    err_ok = p[0] == "proj" and p[1][0] == "call" and p[1][1] in vac and p[2][-2:] == ("@Err", ".0")
+                    err_ok = p[0] == "proj" and p[1][0] == "call" and (p[1][1] in vac or p[1][3] in [d_[0] for d_ in drains]) and p[2][-2:] == ("@Err", ".0")
                 ok = (under_none and from_buf) or err_ok
                 ctx.ob("R7.5", b, "ready-value#%d" % n, ok, b.loc(bb),
                        "under Ready(None)=%s from taken buffer=%s err-payload=%s : %s" % (under_none, from_buf, err_ok, expr_str(e)))
@@ -298,8 +341,11 @@ def run(ctx):
     mus = mu_structs(ctx)
     ctx.floor("R7.0", "structs-with-MaybeUninit-buffers", len(mus), 2)
     # the assumption this property leans on is re-established on this tree
-    c02.r2_1(ctx, R)
-    ctx.rule("R2.1", "see C02 R2.1 (shared): the vacating drain vacates slot i exactly on Ready(Some((i, _)))")
+    c02.r2_1(ctx, R, only_in=c02.COLLECTIONS)
+    ctx.rule("R2.1", "see C02 R2.1 (shared): the collections' vacating drain vacates slot i exactly on Ready(Some((i, _)))")
+    c02.r2_2(ctx, R)
+    ctx.rule("R2.2", "see C02 R2.2 (shared): slots are vacated only by callers of the drain (never by unwind guards or other code), "
+                     "so 'vacant' always means 'its future returned Ready in a drain'")
     r7_1(ctx, R, mus)
     r7_2(ctx, R, mus)
     r7_3(ctx, R, mus)
